@@ -172,6 +172,23 @@ def run(tier, seed):
             if (len(body) < glo or len(body) > ghi) and len(body) <= direction_cap(c["lib"], c["kind"]):
                 witness[key] = (len(body), body.hex() or "-")
                 break
+    # a guard that is too tight at the top needs a LONG valid message: the reference encoder in maximal mode (longest strings, every
+    # optional part, arrays of exactly n elements) with growing n until the body passes the guard's upper end but still fits the frame
+    for key in bad_conts:
+        c = by_key[key]
+        if key in witness:
+            continue
+        glo, ghi = bad_conts[key][1]["guard"][1:]
+        for n_ in (2, 8, 40, 255, 300, 1200, 5000, 20000, 70000):
+            try:
+                body = pyenc.encode(c["tokens"], rng, n_, None, maximal=True)
+            except (pyenc.Unsupported, OverflowError, ValueError):
+                continue
+            if len(body) > direction_cap(c["lib"], c["kind"]):
+                break
+            if len(body) < glo or len(body) > ghi:
+                witness[key] = (len(body), body.hex() or "-")
+                break
     if bad_conts:
         rc_, out_, har = harness_build("world")
     for key, (bad, info) in bad_conts.items():
@@ -183,7 +200,7 @@ def run(tier, seed):
             rq = f"dec {libname(c)} {dr} {fr.hex()}"
             impl = run_lines(har, [rq])[0]
             if not impl.startswith("ok"):
-                rep.violation(f"C09/{key}/guard", f"{key}: {bad}; a canonical encoding of {n} bytes is rejected: '{impl[:100]}'", dict(info, input_frame_hex=fr.hex()[:4000], length=n, implementation=impl[:300], replay_cmd=f"echo '{rq[:8000]}' | {har}"))
+                rep.violation(f"C09/{key}/guard", f"{key}: {bad}; a canonical encoding of {n} bytes is rejected: '{impl[:100]}'", dict(info, input_frame_hex=fr.hex() if len(fr) < 400000 else fr.hex()[:4000], length=n, implementation=impl[:300], replay_cmd=f"echo 'dec {libname(c)} {dr} <input_frame_hex>' | {har}"))
                 continue
         rep.violation(f"C09/{key}/guard", f"{key}: {bad}", dict(info, unchecked="containment of the model interval in the published guard; no rejected valid message found by the targeted search"), no_input=True)
     attained = sum(1 for c, lo, hi, glo, ghi in checked if extremes.get(c["key"], [None])[0] == lo)
